@@ -715,7 +715,7 @@ func (f *Frame) execBlock(b *ssa.BasicBlock, st *State, r string) {
 				// map: visited set
 				m := i.X.Type().Underlying().(*types.Map)
 				ks := c.eng.sortOf(m.Key())
-				st.iters[i] = Val{T: c.eng.zero("(Array " + ks + " Bool)"), S: "(Array " + ks + " Bool)", GT: i.X.Type()}
+				st.iters[i] = Val{T: c.eng.zero("(Array " + ks + " Bool)"), S: "(Array " + ks + " Bool)", GT: i.X.Type(), Tup: []Val{tv("0", "Int")}}
 			}
 			f.regs[i] = x
 		case *ssa.Next:
@@ -1023,9 +1023,27 @@ func (f *Frame) execSlice(i *ssa.Slice, st *State, r string) Val {
 		lo = "0"
 	}
 	if _, ok := i.X.Type().Underlying().(*types.Pointer); ok {
-		// slice of array (varargs)
+		// slice of array: varargs temporaries stay engine-level; make([]T, const) and slice literals become real slices
 		if x.A != nil {
 			v := c.load(st, x.A)
+			if x.A.Cell != nil && x.A.Cell.Comment != "varargs" && v.IsArr {
+				es := c.eng.sortOf(i.Type().Underlying().(*types.Slice).Elem())
+				ss := c.eng.sliceSort(es)
+				arr := c.eng.zero("(Array Int " + es + ")")
+				for k, el := range v.Arr {
+					if el.T != "" {
+						arr = fmt.Sprintf("(store %s %d %s)", arr, k, el.T)
+					}
+				}
+				ln := fmt.Sprint(len(v.Arr))
+				if i.High != nil {
+					ln = f.val(i.High).T
+				}
+				if lo != "0" {
+					c.errorf("slice literal with non-zero low bound")
+				}
+				return Val{T: c.mkSlice(ss, arr, "0", ln), S: ss, GT: i.Type()}
+			}
 			return v
 		}
 		c.errorf("unsupported slice of pointer-to-array")
@@ -1177,6 +1195,13 @@ func (f *Frame) execNext(i *ssa.Next, st *State, r string) Val {
 	c.assume(r, "(=> (not "+ok+") (forall ((k! "+ks+")) (=> (select "+d+" k!) (select "+it.T+" k!))))")
 	nit := it
 	nit.T = c.name("(ite "+ok+" (store "+it.T+" "+k+" true) "+it.T+")", it.S, "itv")
+	if len(it.Tup) == 1 {
+		// number of keys visited so far; when the iteration is exhausted it equals the map's length
+		_, _, lnk := c.eng.mapKeys(m)
+		c.assume(r, "(=> (not "+ok+") (= "+it.Tup[0].T+" (select "+c.heapTerm(st, lnk)+" "+x.T+")))")
+		c.assume(r, "(=> "+ok+" (< "+it.Tup[0].T+" (select "+c.heapTerm(st, lnk)+" "+x.T+")))")
+		nit.Tup = []Val{tv("(ite "+ok+" (+ "+it.Tup[0].T+" 1) "+it.Tup[0].T+")", "Int")}
+	}
 	st.iters[i.Iter] = nit
 	v := Val{T: "(select (select " + c.heapTerm(st, val) + " " + x.T + ") " + k + ")", S: vs, GT: m.Elem()}
 	kv := Val{T: k, S: ks, GT: m.Key()}
